@@ -38,6 +38,12 @@ var bodyFiles = []srcFile{
 	{"filesys", "machine/filesys/dir.go"},
 	{"test_gen", "cmd/test_gen/main.go"},
 	{"goosecmd", "cmd/goose/main.go"},
+	{"goose", "goose.go"},
+	{"goose", "interface.go"},
+	{"goose", "idents.go"},
+	{"goose", "errors.go"},
+	{"goose", "types.go"},
+	{"coq", "internal/coq/coq.go"},
 }
 
 // moduleDir asks the go command (offline) where a required module is cached
